@@ -302,7 +302,7 @@ async fn episode(p: &EpParams, mt: bool) -> EpReport {
     let big = match prof {
         Profile::C08 => rng.chance(1, 6),
         Profile::C03 => rng.chance(1, 8),
-        Profile::C01 => false,
+        Profile::C01 => rng.chance(1, 8),
     };
     if big {
         // one request far larger than any internal batching threshold races the other publishers:
@@ -505,6 +505,32 @@ async fn episode(p: &EpParams, mt: bool) -> EpReport {
             }));
         }
         shape.push("churn".into());
+    }
+
+    // C08: the second topic is deleted while its publisher is still at work (a publish that was
+    // on its way in when the deletion was carried out is either refused or numbered like any other)
+    if prof == Profile::C08 && two_topics && rng.chance(1, 3) {
+        let cx = mk(&w);
+        let tb2 = tb.clone();
+        let mut r = rng.fork(18);
+        tasks.push(tokio::spawn(async move {
+            for _ in 0..r.range(1, 4) {
+                jitter(&mut r, mt).await;
+            }
+            let _ = cx.delete_topic(&tb2).await;
+        }));
+        // ... and a burst of single publishes to it from other clients around that moment
+        for i in 0..rng.range(3, 12) {
+            let (c, t2) = (mk(&w), tb.clone());
+            let mut r = rng.fork(180 + i);
+            tasks.push(tokio::spawn(async move {
+                for _ in 0..r.range(1, 4) {
+                    jitter(&mut r, mt).await;
+                }
+                let _ = c.publish(&t2, &[Msg::tagged(&format!("c{}#late", c.id))]).await;
+            }));
+        }
+        shape.push("deltopic-under-publishers".into());
     }
 
     // ---- wait for the clients ----------------------------------------------------------------------
